@@ -8,6 +8,9 @@
 (***************************************************************************)
 EXTENDS Bytes, Base58, Wire, Bech32, PathGrammar, Oracle, Json, IOUtils, TLC
 
+PairH256(e, l, r) == Hash256(e, l \o r)
+MK == INSTANCE Merkle WITH PairHash <- PairH256
+
 Trace == JsonDeserialize(IOEnv.TRACE_FILE)
 
 VARIABLE l
@@ -169,6 +172,41 @@ V_ByPath(e) ==               \* e.inp = [path, wallet]; e.res.v = [node, repr]
           ELSE "bypath-derived-from-malformed-" \o p.why
 
 ---------------------------------------------------------------------------
+\* growth beyond the listed properties
+\* merkle helpers: e.inp = list of hashes; e.res.v = [level | root]; e.after = the caller's list afterwards
+V_MerkleLevel(e) ==
+  IF Len(e.inp) = 0 THEN "ok"
+  ELSE LET r == MK!ParentLevel(e, e.inp)
+       IN IF ~r.ok THEN (IF Raised(e) THEN "ok" ELSE "merkle-level-of-one-accepted")
+          ELSE IF Raised(e) THEN "merkle-level-raised"
+          ELSE IF e.res.v # r.level THEN "merkle-level-value"
+          ELSE IF e.after # r.caller THEN "merkle-level-caller-list"
+          ELSE "ok"
+V_MerkleRoot(e) ==
+  LET r == MK!Root(e, e.inp)
+  IN IF ~r.ok THEN (IF Raised(e) THEN "ok" ELSE "merkle-root-of-nothing")
+     ELSE IF Raised(e) THEN "merkle-root-raised"
+     ELSE IF e.res.v # r.root THEN "merkle-root-value"
+     ELSE "ok"
+
+\* Script.__add__: concatenation of command lists; serialisation of the sum = concatenation of the raw parts
+V_ScriptAdd(e) ==            \* e.inp = [a, b] (command lists); e.res.v = [cmds, raw]
+  IF Raised(e) THEN "script-add-raised"
+  ELSE IF e.res.v.cmds # e.inp.a \o e.inp.b THEN "script-add-commands"
+  ELSE IF HasEmptyElem(e.inp.a \o e.inp.b) THEN "ok"
+  ELSE LET ra == RawSerializeScript(e.inp.a)  rb == RawSerializeScript(e.inp.b)
+       IN IF ra.ok /\ rb.ok /\ e.res.v.raw # ra.bytes \o rb.bytes THEN "script-add-serialisation" ELSE "ok"
+
+\* helper.bech32_decode_address(addr): the witness program of a bc/tb address (hrp = first two characters)
+V_Bech32DecodeAddress(e) ==
+  LET r == IF Len(e.inp) < 2 THEN [ok |-> FALSE] ELSE AddrDecode(ToLower(Take(e.inp, 2)), e.inp)
+  IN IF ~r.ok THEN "ok"                      \* the helper's behaviour on invalid input is not specified anywhere
+     ELSE IF Take(e.inp, 2) # ToLower(Take(e.inp, 2)) THEN "ok"   \* upper-case addresses: helper compares the raw prefix
+     ELSE IF Raised(e) THEN "bech32-decode-address-raised"
+     ELSE IF e.res.v # r.prog THEN "bech32-decode-address-program"
+     ELSE "ok"
+
+---------------------------------------------------------------------------
 Verdict(e) ==
   CASE e.act = "B58Enc" -> V_B58Enc(e)
     [] e.act = "B58Dec" -> V_B58Dec(e)
@@ -182,6 +220,10 @@ Verdict(e) ==
     [] e.act = "SegwitDec" -> V_SegwitDec(e)
     [] e.act = "PathParse" -> V_PathParse(e)
     [] e.act = "ByPath" -> V_ByPath(e)
+    [] e.act = "MerkleLevel" -> V_MerkleLevel(e)
+    [] e.act = "MerkleRoot" -> V_MerkleRoot(e)
+    [] e.act = "ScriptAdd" -> V_ScriptAdd(e)
+    [] e.act = "Bech32DecodeAddress" -> V_Bech32DecodeAddress(e)
     [] OTHER -> "unknown-act"
 
 TraceInit == l = 1
